@@ -19,6 +19,9 @@ def collect_on(tier: str, prop: str) -> list[dict]:
         dict(algo="A2C", kind="boxscalar", dims=[4], S=5, masked=False, n=4, T=2, stack=["TimeLimit"], obs_kind="box"),
         dict(algo="PPO", kind="discrete", dims=[4], S=7, masked=True, n=4, T=1, stack=["TimeLimit"], obs_kind="discrete"),
         dict(algo="REINFORCE", kind="box", dims=[2, 2], S=3, masked=False, n=1, T=16, stack=["TimeLimit"], obs_kind="box"),
+        # hyper-parameters given as plain Python floats (as a user would), incl. the falsy value 0.0
+        dict(algo="A2C", kind="discrete", dims=[2], S=4, masked=False, n=2, T=6, stack=["TimeLimit"], obs_kind="box", static_hp={"gamma": 0.9, "lam": 0.0}),
+        dict(algo="PPO", kind="discrete", dims=[3], S=4, masked=False, n=1, T=5, stack=[], obs_kind="box", static_hp={"gamma": 1.0, "lam": 0.0}),
     ]
     if prop == "C12":
         base = [c for c in base if c["n"] > 1]
@@ -64,12 +67,18 @@ def offpolicy(tier: str, prop: str) -> list[dict]:
         dict(sac, kind="boxscalar", dims=[2], S=4, n=2, T=1, buffer=8, starts=4, batch=8, pfreq=1, autotune=False, stack=["TimeLimit"]),
         dict(sac, kind="box", dims=[2, 2], S=6, n=1, T=1, buffer=10, starts=10, batch=10, pfreq=3, autotune=True, stack=[]),
     ]
+    # independence probe (C12): uniformly random behaviour that does not depend on the state, enough steps that two
+    # nodes producing the same action stream by chance has probability <= 2^-48
+    iid = [
+        dict(dqn, dims=[4], S=5, n=3, T=2, buffer=96, starts=24, batch=4, interval=2, epsilon=1.0, stack=["TimeLimit"], iid_probe=True),
+        dict(sac, kind="box", dims=[2], S=4, n=2, T=2, buffer=32, starts=8, batch=4, pfreq=2, autotune=True, stack=["TimeLimit"], iid_probe=True),
+    ]
     if prop == "C07":
         out = full
     elif prop == "C10":
         out = full + collect[:1] + collect[4:6]
     elif prop == "C12":
-        out = [c for c in collect + full if c["n"] > 1]
+        out = [c for c in collect + full if c["n"] > 1] + iid
     else:
         out = collect + full[:1] + full[3:4]
     return out
@@ -305,6 +314,8 @@ def g1(tier: str, prop: str) -> list[dict]:
         dict(mode="task", env="G1Locomotion", K=8, L=20, kwargs=loco),
         dict(mode="task", env="G1Standing", K=8, L=16, kwargs=shifted),
         dict(mode="task", env="G1Standup", K=8, L=16, kwargs=shifted),
+        # every episode gets the documented all-zero "stand still" command: the gait clock must keep running
+        dict(mode="task", env="G1Locomotion", K=4, L=14, kwargs={"zero_command_probability": 1.0}),
     ]
     defaults = [
         dict(mode="task", env="G1Locomotion", K=8, L=20),
